@@ -340,10 +340,15 @@ func project(v interface{}) SV {
 func subReq(q ClientSpec) *gpb.SubscribeRequest {
 	pre := q.Prefix
 	p := q.Path
+	subs := []*gpb.Subscription{{Path: p.pb()}}
+	for i := range q.More {
+		m := q.More[i]
+		subs = append(subs, &gpb.Subscription{Path: m.pb()})
+	}
 	return &gpb.SubscribeRequest{Request: &gpb.SubscribeRequest_Subscribe{Subscribe: &gpb.SubscriptionList{
 		Mode:         gpb.SubscriptionList_STREAM,
 		Prefix:       pre.pb(),
-		Subscription: []*gpb.Subscription{{Path: p.pb()}},
+		Subscription: subs,
 	}}}
 }
 
@@ -923,7 +928,7 @@ func runScenario(e *env, id int, c *Case) (obs *Obs, herr error) {
 	want := make([]int, len(clients))
 	for i, q := range c.Clients {
 		want[i] = -1
-		if len(q.Path.Elem) == 0 && len(q.Path.Element) == 0 && len(q.Prefix.Elem) == 0 && q.Prefix.Origin == "" && q.Path.Origin == "" {
+		if len(q.More) == 0 && len(q.Path.Elem) == 0 && len(q.Path.Element) == 0 && len(q.Prefix.Elem) == 0 && q.Prefix.Origin == "" && q.Path.Origin == "" {
 			want[i] = expectedCount(c.Ops, q.Prefix.Target)
 		}
 	}
